@@ -96,6 +96,15 @@ def _work(chunk):
     lines, meta, fails = [], [], []
     n = 0
     for tag, succ in chunk:
+        if tag == "ast":
+            from numba_scfg.core.datastructures.ast_transforms import AST2SCFG
+            scfg = AST2SCFG("def f(a, b):\n    s = 0\n    for i in range(a):\n        if i == b:\n            break\n        s += i\n    return s\n")
+            try:
+                scfg.to_dict()
+            except Exception as e:  # noqa: BLE001
+                fails.append((None, "ast-front-end-graph", "to_dict:" + exc_sig(e)))
+            n += 1
+            continue
         scfg = export.mk_scfg(succ) if succ is not None else ByteFlow.from_bytecode(gfun).scfg
         for stage, op in (("input", None), ("closed", "join_returns"), ("loop", "restructure_loop"), ("branch", "restructure_branch")):
             if op is not None:
@@ -126,6 +135,7 @@ def run(ctx):
     if ctx["tier"] == "quick":
         inputs = inputs[::2]
     inputs.append(("bytecode", None))
+    inputs.append(("ast", None))
     nproc = common.ncpu()
     size = max(20, min(500, len(inputs) // (nproc * 4) + 1))
     chunks = [inputs[i:i + size] for i in range(0, len(inputs), size)]
@@ -141,7 +151,8 @@ def run(ctx):
         succ = min((s for s in items if s is not None), key=lambda s: (len(s), s), default=None)
         violations.append({"signature": {"stage": stage, "failure": why},
                            "what": f"round trip of the graph after stage '{stage}' fails: {why} ({len(items)} graphs)",
-                           "payload": {"input_succ": [list(s) for s in succ] if succ else "bytecode:gfun", "stage": stage, "failure": why, "count": len(items)}})
+                           "payload": {"input_succ": [list(s) for s in succ] if succ else ("source-front-end graph" if stage == "ast-front-end-graph" else "bytecode:gfun"),
+                                       "stage": stage, "failure": why, "count": len(items)}})
     cov = {"programs": len(inputs), "disagreements_checked": len(fails),
            "samples": [{"input_succ": [list(s) for s in inputs[len(inputs) // 3][1]]}],
            "evaluations": n, "distinct_nontrivial": len(inputs),
